@@ -378,6 +378,9 @@ func (rw *rewriter) rewrite() {
 				if orderedKey(u.Key()) {
 					rw.stats["maprange"]++
 					n.X = call(rw.vs("RangeMap"), n.X)
+				} else if plainValueKey(u.Key(), 0) {
+					rw.stats["maprange_fmt"]++
+					n.X = call(rw.vs("RangeMapFmt"), n.X)
 				} else {
 					rw.stats["maprange_unordered:"+types.TypeString(u.Key(), nil)]++
 				}
@@ -417,6 +420,28 @@ func filterDoc(cg *ast.CommentGroup) *ast.CommentGroup {
 		return nil
 	}
 	return &ast.CommentGroup{List: lst}
+}
+
+// plainValueKey: struct / array / basic types without pointers, interfaces or channels, whose
+// printed form is therefore deterministic.
+func plainValueKey(t types.Type, depth int) bool {
+	if depth > 4 {
+		return false
+	}
+	switch u := t.Underlying().(type) {
+	case *types.Basic:
+		return u.Info()&(types.IsInteger|types.IsString|types.IsFloat|types.IsBoolean) != 0 && u.Kind() != types.UnsafePointer && u.Kind() != types.Uintptr
+	case *types.Struct:
+		for i := 0; i < u.NumFields(); i++ {
+			if !plainValueKey(u.Field(i).Type(), depth+1) {
+				return false
+			}
+		}
+		return true
+	case *types.Array:
+		return plainValueKey(u.Elem(), depth+1)
+	}
+	return false
 }
 
 func orderedKey(t types.Type) bool {
